@@ -530,6 +530,10 @@ fn c18_pair<T: Elem>(a: &[Op<T>], b: &[Op<T>], probes: &[T], st: &mut Stats, lab
         if sa.cmp(&sb) != canon_a.cmp(&canon_b) {
             return Err(fail("ordering between two sets depends on the history, not only on the element sets".into()));
         }
+        // one ordering: `<`, `partial_cmp` and `cmp` must tell the same story
+        if sa.partial_cmp(&sb) != Some(sa.cmp(&sb)) || (sa < sb) != (sa.cmp(&sb) == std::cmp::Ordering::Less) {
+            return Err(fail(format!("partial_cmp / `<` disagree with cmp for {ma:?} vs {mb:?}")));
+        }
     }
     if sa != canon_a || h(&sa) != h(&canon_a) {
         return Err(fail("a set differs from the set built from its sorted elements".into()));
